@@ -24,6 +24,9 @@ import VsgModel.Lex.Tables
 import VsgModel.Lex.Retok
 import VsgModel.Engine.ReparseReport
 import VsgProofs.Lemmas.Retok
+import VsgProofs.Lemmas.BaseMultiDispatch
+import VsgModel.Indent.SetIndent
+import VsgProofs.Lemmas.SetIndent
 namespace Vsgm.C08
 open Vsgm Vsgm.Lex Vsgm.Lex.Rt Vsgm.Reparse
 
@@ -168,5 +171,240 @@ example : WellFormedLine pyTables [s "c", s " ", s ":=", s " ", s "'1'", s ";"] 
 example :
     let r : CheckRule (List Nat) := { cfg := ⟨"r", 1, 0, false, true, true, false⟩, analyze := fun f => f.map (fun n => ⟨n, 0, [], 0⟩) }
     reportAfterFix [r] true [] [1, 2] ≠ reportFresh [r] true [] (fun f => f.take 1) [1, 2] := by decide
+
+/-! ### BEGIN ag_bmulti (causes of the "stray blank_line token" / "line break without blank_line" findings) -/
+
+open Base.Multi Base.LineStruct in
+/-- **cause of the C08 findings at multiline_subprogram_specification_structure /
+    multiline_constraint_structure / multiline_procedure_call_structure** (`vsg/rules/fix.py`):
+    `remove_new_line` removes EVERY carriage return of its region, `blank_line` tokens are not looked at
+    (and the result of the final `utils.fix_blank_lines(lNewTokens)` is thrown away).  So no token of the
+    returned list is a carriage return: a `blank_line` token that survives stands inside a code line -/
+theorem bfix_fixpy_remove_noCr (o : MOwner) (ho : o.usesFixPy = true) (params action : Base.KV) (old new : List Tok)
+    (h : Base.fixByOwner o.name params action old = some (.ok new))
+    (ha : ∃ act, dget action "action" = .ok act ∧ nlKind act = .remove) : ∀ t ∈ new, isCr t = false := by
+  have hm := run_fixM o params action old new (mowner_all _) h
+  have hm' : fixNL Base.multiEnv.c action old = .ok new := by
+    cases o <;> simp [MOwner.usesFixPy] at ho <;> exact hm
+  obtain ⟨act, ha1, hk⟩ := ha
+  obtain ⟨act', ha', hkk⟩ := fixNL_cases _ action old new hm'
+  rw [ha1] at ha'; cases ha'
+  simp only [hk] at hkk
+  exact removeNewLine_noCr old new hkk
+
+open Base.Multi in
+/-- the finding's own region (`: text ⏎ <blank line> ⏎ ␣ ;` of procedure_013): the `blank_line` token
+    is still there, its two line breaks are gone -/
+theorem fixpy_stray_blank_line :
+    let old : List Tok := [⟨9, .code, "text".toList⟩, ⟨Gen.crCls, .cr, ['\n']⟩, ⟨Gen.blankCls, .blank, []⟩,
+      ⟨Gen.crCls, .cr, ['\n']⟩, ⟨Gen.wsCls, .ws, "    ".toList⟩, ⟨9, .code, [';']⟩]
+    Base.fixByOwner (MOwner.name .subprogram) [] [("action", .str "remove_new_line".toList)] old =
+      some (.ok [⟨9, .code, "text".toList⟩, ⟨Gen.blankCls, .blank, []⟩, ⟨Gen.wsCls, .ws, [' ']⟩, ⟨9, .code, [';']⟩]) := by
+  decide +kernel
+
+open Base.Multi Base.LineStruct in
+/-- **cause at multiline_structure**: `_fix_assign_on_single_line` removes every carriage return and every
+    comment of its region and keeps every `blank_line` token -/
+theorem bfix_multiStruct_join_blank (old : List Tok) :
+    (∀ t ∈ joinAssign old, isCr t = false) ∧ (joinAssign old).filter isBlank = old.filter isBlank :=
+  joinAssign_blank old
+
+open Base.Multi Base.LineStruct in
+/-- **cause at process_021** (style require_blank_line): on a region of at least three tokens the new
+    `blank_line` token and its line break are inserted at `len - 3` (whitespace in front of `begin`) resp.
+    `len - 2`, i.e. IN FRONT of the line break that ends the previous line — `X ⏎ begin` becomes
+    `X blank_line ⏎ ⏎ begin`: the `blank_line` token is not preceded by a carriage return and the second
+    line break has no `blank_line` token -/
+theorem bfix_process021_blank_position (params action : Base.KV) (old new : List Tok)
+    (h : Base.fixByOwner (MOwner.name .process021) params action old = some (.ok new))
+    (hs : pget params "style" = .ok (.str "require_blank_line".toList)) (hlen : 3 ≤ old.length) :
+    ∃ t, Base.pyGet old (-2) = .ok t ∧
+      new = old.take (old.length - (if isWs t then 3 else 2)) ++ [mkBlank Base.lineCls, mkCr Base.lineCls] ++
+        old.drop (old.length - (if isWs t then 3 else 2)) := by
+  have hm := run_fixM .process021 params action old new (mowner_all _) h
+  obtain ⟨st, hst, hc⟩ := fixProcess021_cases _ params old new hm
+  rw [hs] at hst; cases hst
+  rcases hc with ⟨h0, _⟩ | ⟨_, _, h1⟩ | ⟨_, h0, _⟩
+  · exact absurd h0 (by decide)
+  · exact insertBlankBeforeLast_eq _ old new h1 hlen
+  · exact absurd h0 (by decide)
+
+open Base.Multi in
+/-- the finding's own region: `process ⏎ ␣␣begin` -/
+theorem process021_stray_blank_line :
+    Base.fixByOwner (MOwner.name .process021) [("style", .str "require_blank_line".toList)] []
+      [⟨9, .code, "process".toList⟩, ⟨Gen.crCls, .cr, ['\n']⟩, ⟨Gen.wsCls, .ws, "  ".toList⟩, ⟨9, .code, "begin".toList⟩] =
+    some (.ok [⟨9, .code, "process".toList⟩, ⟨Gen.blankCls, .blank, []⟩, ⟨Gen.crCls, .cr, ['\n']⟩, ⟨Gen.crCls, .cr, ['\n']⟩,
+      ⟨Gen.wsCls, .ws, "  ".toList⟩, ⟨9, .code, "begin".toList⟩]) := by
+  decide +kernel
+
+open Base.Multi Base.LineStruct in
+/-- **cause at process_026 / process_027**, action "Insert" with an index inside the region: the pair
+    `blank_line, ⏎` is inserted at the index the analysis computed, directly behind `old[index - 1]` — a
+    stray `blank_line` token whenever that token is not a carriage return (process_027 assumes that
+    `begin` starts its line; process_026 that the token after the declarative part's first line break
+    starts a line) -/
+theorem bfix_process026_027_insert_position (o : MOwner) (ho : o = .process026 ∨ o = .process027)
+    (params action : Base.KV) (old new : List Tok)
+    (h : Base.fixByOwner o.name params action old = some (.ok new))
+    (ha : dget action "action" = .ok (.str "Insert".toList)) :
+    ∃ i, dgetInt action "index" = .ok i ∧ (0 ≤ i → i ≤ old.length →
+      new = old.take (insPos old.length i) ++ [mkBlank Base.lineCls, mkCr Base.lineCls] ++ old.drop (insPos old.length i)) := by
+  have hm := run_fixM o params action old new (mowner_all _) h
+  have hins : insertBlankAt Base.multiEnv.c action old = .ok new := by
+    rcases ho with rfl | rfl
+    · obtain ⟨a, ha', hc⟩ := fixProcess026_cases _ action old new hm
+      rw [ha] at ha'; cases ha'
+      rcases hc with ⟨_, h1⟩ | ⟨h0, _⟩
+      · exact h1
+      · exact absurd h0 (by decide)
+    · obtain ⟨a, ha', hc⟩ := fixProcess027_cases _ action old new hm
+      rw [ha] at ha'; cases ha'
+      rcases hc with ⟨_, h1⟩ | ⟨h0, _, _⟩ | ⟨h0, _, _⟩
+      · exact h1
+      · exact absurd h0 (by decide)
+      · exact absurd h0 (by decide)
+  exact (insertBlankAt_eq _ action old new hins).2
+
+open Base.Multi in
+/-- the removing branch with the action the analysis of process_026 builds for `process ⏎ <blank line> ⏎ …`
+    (`start` = 1, `end` = 2): the line break IN FRONT of the `blank_line` token is cut, the token stays;
+    and "Insert" of process_027 on `… ; ␣ begin` (index = len - 2): the pair lands behind the semicolon -/
+theorem process026_027_stray_blank_line :
+    Base.fixByOwner (MOwner.name .process026) [] [("action", .str "Remove".toList), ("start", .int 1), ("end", .int 2)]
+      [⟨9, .code, "process".toList⟩, ⟨Gen.crCls, .cr, ['\n']⟩, ⟨Gen.blankCls, .blank, []⟩, ⟨Gen.crCls, .cr, ['\n']⟩,
+        ⟨9, .code, "constant".toList⟩] =
+      some (.ok [⟨9, .code, "process".toList⟩, ⟨Gen.blankCls, .blank, []⟩, ⟨Gen.crCls, .cr, ['\n']⟩, ⟨9, .code, "constant".toList⟩]) ∧
+    Base.fixByOwner (MOwner.name .process027) [] [("action", .str "Insert".toList), ("index", .int 1)]
+      [⟨9, .code, [';']⟩, ⟨Gen.wsCls, .ws, [' ']⟩, ⟨9, .code, "begin".toList⟩] =
+      some (.ok [⟨9, .code, [';']⟩, ⟨Gen.blankCls, .blank, []⟩, ⟨Gen.crCls, .cr, ['\n']⟩, ⟨Gen.wsCls, .ws, [' ']⟩,
+        ⟨9, .code, "begin".toList⟩]) := by
+  constructor <;> decide +kernel
+
+open Base.Multi Base.LineStruct in
+/-- **cause at when_001** ("carriage return where the re-parse has a blank_line"): the moved token leaves
+    its line behind — `m ++ [x]` becomes `[␣, x] ++ m`, so when `x` stood alone on its line (`m` ends with
+    the line break in front of it) the region now ENDS with that line break, and the line break that
+    followed `x` comes directly after it with no `blank_line` token between them -/
+theorem bfix_when001_leaves_empty_line (params action : Base.KV) (old new : List Tok)
+    (h : Base.fixByOwner (MOwner.name .when001) params action old = some (.ok new)) :
+    ∃ m x tail, old = m ++ [x] ++ tail ∧ m ≠ [] ∧ new = mkWs Base.lineCls :: x :: m ∧ new.getLast? = m.getLast? := by
+  have hm := run_fixM .when001 params action old new (mowner_all _) h
+  obtain ⟨m, x, tail, hl, _, hne, hn⟩ := fixWhen001_eq _ old new hm
+  refine ⟨m, x, tail, hl, hne, hn, ?_⟩
+  rw [hn]
+  cases m with
+  | nil => exact absurd rfl hne
+  | cons y r => simp [List.getLast?_cons_cons]
+
+/-! ### END ag_bmulti -/
+
+/-! ### BEGIN ag_setindent (`set_token_indent`: in-memory indents against a fresh parse) -/
+
+section SetIndent
+open Vsgm.Indent
+
+/-- **idempotence**: the function reads class, lower-case value and block-comment mark of the tokens and
+    never an `indent`, so a second call writes the same values (and again nothing on the tokens it never
+    writes) -/
+theorem setIndent_idem (E : Env) (m : IndentMap) (l r : List ITok) (h : setTokenIndent E m l = .ok r) :
+    setTokenIndent E m r = .ok r :=
+  setTokenIndent_idem' E m l r h
+
+/-- **the in-memory indents are the function of the final list**: `r` = the list the last
+    `set_token_indent` call of a fix run left, `mem` = the list at the end of the run, where the steps in
+    between are layout-only or case-only and write no attribute the function reads or writes
+    (`strip mem = strip r`: outside whitespace / carriage returns the tokens agree in class, lower-case
+    value, block-comment mark and indent).  Then one more call on `mem` changes no indent. -/
+theorem indent_memory_fixpoint (E : Env) (m : IndentMap) (L : LayoutOk E) (H : SkipOk E (processIndentMap m))
+    (l₀ r mem mem' : List ITok) (h₀ : setTokenIndent E m l₀ = .ok r) (hm : strip E mem = strip E r)
+    (hf : setTokenIndent E m mem = .ok mem') : strip E mem' = strip E mem :=
+  setTokenIndent_memory_fix E m L H l₀ r mem mem' h₀ hm hf
+
+/-- **a fresh parse assigns the same indents** (`fresh` = new token objects of the same classes: no indent,
+    no block-comment mark), provided that at the last refresh
+      (`hb`) no comment carried a block-comment mark (`is_block_comment`, written by the block_comment
+             rules and lost on a re-parse), and
+      (`hn`) the tokens the function never writes (`neverSet`: blank lines and, for the default map,
+             `architecture_body.semicolon`, `concurrent_simple_signal_assignment.semicolon`,
+             `concurrent_conditional_signal_assignment.semicolon` — the function never resets an indent)
+             carried no indent.
+    These are exactly the two excluded cases (`indent_agree_false_blockComment`,
+    `indent_agree_false_staleIndent`). -/
+theorem indent_agree_partial (E : Env) (m : IndentMap) (L : LayoutOk E) (H : SkipOk E (processIndentMap m))
+    (l₀ r mem mem' : List ITok) (h₀ : setTokenIndent E m l₀ = .ok r) (hm : strip E mem = strip E r)
+    (hb : ∀ t ∈ l₀, t.key.block = .no)
+    (hn : ∀ t ∈ l₀, neverSet E (processIndentMap m) t.key = true → E.isLayout t.key = false → t.indent = none)
+    (hf : setTokenIndent E m (fresh mem) = .ok mem') : strip E mem' = strip E mem :=
+  setTokenIndent_agree E m L H l₀ r mem mem' h₀ hm hb hn hf
+
+/-- … with the tables of the pinned tree and any indent map a user `indent:` section can produce -/
+theorem indent_agree_partial_userConfig (user : Option IndentMap) (m : IndentMap)
+    (hc : readIndentConfiguration Gen.indentConfig user = .ok m)
+    (l₀ r mem mem' : List ITok) (h₀ : setTokenIndent genEnv m l₀ = .ok r) (hm : strip genEnv mem = strip genEnv r)
+    (hb : ∀ t ∈ l₀, t.key.block = .no)
+    (hn : ∀ t ∈ l₀, neverSet genEnv (processIndentMap m) t.key = true → genEnv.isLayout t.key = false →
+      t.indent = none)
+    (hf : setTokenIndent genEnv m (fresh mem) = .ok mem') : strip genEnv mem' = strip genEnv mem :=
+  setTokenIndent_agree genEnv m genEnv_layoutOk (SkipOk.of_merge genEnv _ user m genEnv_skipOk hc)
+    l₀ r mem mem' h₀ hm hb hn hf
+
+/-- the classes the function never writes under the default map, outside whitespace / carriage returns:
+    `parser.blank_line`, `architecture_body.semicolon`, `concurrent_conditional_signal_assignment.semicolon`,
+    `concurrent_simple_signal_assignment.semicolon` (rows of the generated class table) -/
+theorem neverSet_default_classes (k : Key)
+    (h : neverSet genEnv (processIndentMap Gen.indentConfig) k = true) (hl : genEnv.isLayout k = false) :
+    k.cls ∈ [Gen.indentCls.blankLine, Gen.indentCls.archSemi, Gen.indentCls.ccsaSemi, Gen.indentCls.cssaSemi] :=
+  rowNever_mem _ _ neverSet_default_rows k h hl
+
+/-- … for the pinned tree with the default indent map: `hn` only concerns four classes -/
+theorem indent_agree_partial_py (l₀ r mem mem' : List ITok)
+    (h₀ : setTokenIndent genEnv Gen.indentConfig l₀ = .ok r) (hm : strip genEnv mem = strip genEnv r)
+    (hb : ∀ t ∈ l₀, t.key.block = .no)
+    (hn : ∀ t ∈ l₀, t.key.cls ∈ [Gen.indentCls.blankLine, Gen.indentCls.archSemi, Gen.indentCls.ccsaSemi,
+      Gen.indentCls.cssaSemi] → t.indent = none)
+    (hf : setTokenIndent genEnv Gen.indentConfig (fresh mem) = .ok mem') :
+    strip genEnv mem' = strip genEnv mem :=
+  setTokenIndent_agree genEnv Gen.indentConfig genEnv_layoutOk genEnv_skipOk l₀ r mem mem' h₀ hm hb
+    (fun t ht hns hl => hn t ht (neverSet_default_classes t.key hns hl)) hf
+
+/-- **without `hb` false**: a comment marked as block comment between `architecture` and the next
+    `architecture` keeps the running indent 1 in memory, a fresh parse gives it the indent of the next token, 0 -/
+theorem indent_agree_false_blockComment :
+    let N := Gen.indentCls
+    let l₀ : List ITok := [{ key := { cls := N.archKw, lower := [] }, indent := none },
+                           { key := { cls := N.comment, lower := [], block := .yes }, indent := none },
+                           { key := { cls := N.archKw, lower := [] }, indent := none }]
+    ((setTokenIndent genEnv Gen.indentConfig l₀).toOption.map (·.map (·.indent)) = some [some 0, some 1, some 0]) ∧
+    ((setTokenIndent genEnv Gen.indentConfig (fresh l₀)).toOption.map (·.map (·.indent)) = some [some 0, some 0, some 0]) := by
+  decide +kernel
+
+/-- **without `hn` false**: the function never resets an indent — an `architecture_body.semicolon` that
+    carries indent 5 keeps it, the freshly parsed one has none -/
+theorem indent_agree_false_staleIndent :
+    let N := Gen.indentCls
+    let l₀ : List ITok := [{ key := { cls := N.archSemi, lower := [] }, indent := some 5 }]
+    ((setTokenIndent genEnv Gen.indentConfig l₀).toOption.map (·.map (·.indent)) = some [some 5]) ∧
+    ((setTokenIndent genEnv Gen.indentConfig (fresh l₀)).toOption.map (·.map (·.indent)) = some [none]) := by
+  decide +kernel
+
+/-- non-vacuity of `indent_agree_partial_py`: `architecture` ⟨comment⟩ `;` refreshed, then a whitespace token
+    inserted in front of the comment -/
+example :
+    let N := Gen.indentCls
+    let tk : Nat → Option Int → ITok := fun c i => { key := { cls := c, lower := [] }, indent := i }
+    let l₀ := [tk N.archKw none, tk N.comment (some 7), tk N.archSemi none]
+    let r := [tk N.archKw (some 0), tk N.comment (some 1), tk N.archSemi none]
+    let mem := [tk N.archKw (some 0), tk N.whitespace none, tk N.comment (some 1), tk N.archSemi none]
+    (setTokenIndent genEnv Gen.indentConfig l₀).toOption = some r ∧ strip genEnv mem = strip genEnv r ∧
+    (∀ t ∈ l₀, t.key.block = .no) ∧
+    (∀ t ∈ l₀, t.key.cls ∈ [Gen.indentCls.blankLine, Gen.indentCls.archSemi, Gen.indentCls.ccsaSemi,
+      Gen.indentCls.cssaSemi] → t.indent = none) ∧
+    (setTokenIndent genEnv Gen.indentConfig (fresh mem)).toOption = some mem := by
+  decide +kernel
+
+end SetIndent
+
+/-! ### END ag_setindent -/
 
 end Vsgm.C08
